@@ -226,3 +226,219 @@ class AliasForwarder(FunctionContract):
 
 TRACER_CONTRACTS = [TracerWrapper(m) for m in TracerWrapper.SPEC]
 ALIAS_CONTRACTS = [AliasForwarder(m) for m in AliasForwarder.PARENTS]
+
+
+# ---------------------------------------------------------------------------------------------------------------
+# C17: TracerMixin.trace_t itself (what one snapshot is)
+# ---------------------------------------------------------------------------------------------------------------
+class TraceSnapshot(FunctionContract):
+    """trace_t(t, label, trace=...): the traced names are [name] for one name given as a string, the given sequence (list or tuple) of names,
+    or TRACE_VARIABLES (all variables when None) for trace=True; the snapshot is the column of exactly those variables' values at t, in that
+    order; a fresh Trace over those names replaces the stored one only when that one is empty or reset is asked for; the snapshot is appended
+    exactly once, under the label given, to the Trace stored at t."""
+    qualname = 'fsic.extensions.model.TracerMixin.trace_t'
+    props = ('C17',)
+    required_covers = ('kept', 'replaced')
+
+    TRACES = {'true/all': (True, None), 'true/class-list': (True, ['C', 'Long']), 'true/class-tuple': (True, ('C', 'Long')),
+              'one-name': ('Long', None), 'list': (['Y', 'Long'], None), 'tuple': (('Y', 'Long'), None), 'one-name-tuple': (('Long',), ['C'])}
+
+    def scenarios(self):
+        return [f'{k}|{ex}|{r}' for k in self.TRACES for ex in ('empty', 'nonempty', 'nonempty-same-names') for r in ('noreset', 'reset')]
+
+    def setup(self, interp, scenario):
+        import numpy as np
+        import pyvc.libspec as L
+        from fsic.extensions.model import Trace
+        tk, ex, rk = scenario.split('|')
+        trace, class_vars = self.TRACES[tk]
+        e = {'scenario': scenario, 'reads': [], 'stores': [], 'constructed': [], 'appends': []}
+        all_names = ['Y', 'C', 'Long', 'G']
+        values = {'Y': 1.5, 'C': 2.5, 'Long': 3.5, 'G': 4.5}
+        want = [trace] if isinstance(trace, str) else (list(trace) if trace is not True else (list(class_vars) if class_vars is not None else all_names))
+        e['want'] = want
+        e['label'] = object()
+        e['t'] = 2
+
+        class TraceStub:
+            def __init__(self, names, empty, tag):
+                self.names, self.empty, self.tag = names, empty, tag
+
+            def is_empty(self):
+                return self.empty
+
+            def append(self, label, vals):
+                e['appends'].append((self, label, vals))
+        existing = TraceStub(list(want) if ex == 'nonempty-same-names' else ['Y'], ex == 'empty', 'existing')
+        e['existing'] = existing
+
+        class TraceArray:
+            def __init__(self):
+                self.at = {2: existing}
+
+            def __getitem__(self, k):
+                return self.at[k]
+
+            def __setitem__(self, k, v):
+                e['stores'].append((k, v))
+                self.at[k] = v
+        arr = TraceArray()
+        e['arr'] = arr
+
+        class Series:
+            def __init__(self, name):
+                self.name = name
+
+            def __getitem__(self, k):
+                e['reads'].append((self.name, k))
+                return values[self.name]
+
+        class Cls(Traced):
+            TRACE_VARIABLES = class_vars
+        obj = SObj(Cls, {'names': list(all_names)}, label='traced')
+
+        def getitem(interp_, o, args, kwargs, node):
+            key = args[0]
+            if key == Cls.TRACE_NAME:
+                return arr
+            if key not in values:
+                interp_.raise_(KeyError, 'unknown-name')
+            return Series(key)
+
+        def new_trace(interp_, args, kwargs, node):
+            tr = TraceStub(args[0] if args else kwargs.get('names'), True, 'new')
+            e['constructed'].append(tr)
+            return tr
+        new_trace.always = True
+        L._MODELS[Trace] = new_trace
+        interp.registry.set_calls({'fsic.core.containers.VectorContainer.__getitem__': getitem})
+        e['inputs'] = {}
+        return Call([e['t'], e['label']], {'trace': trace, 'reset': rk == 'reset', 'errors': 'raise'}, self_obj=obj, entry=e)
+
+    def post(self, interp, scenario, call, out):
+        import numpy as np
+        ctx = interp.ctx
+        e = call.entry
+        tk, ex, rk = scenario.split('|')
+        if out.kind == 'raise':
+            ctx.prove(False, f'a_snapshot_of_existing_variables_does_not_raise:{getattr(exc_class(out.exc), "__name__", "?")}@{getattr(out.exc, "origin", "")}', 'raises')
+            return
+        want = e['want']
+        ctx.prove(z3.BoolVal(e['reads'] == [(nm, e['t']) for nm in want]), 'reads_exactly_the_traced_variables_at_t_in_order_(one_name_given_as_a_string_is_one_name)', 'ensures',
+                  note=str(e['reads']))
+        replace = ex == 'empty' or rk == 'reset'
+        ctx.cover('replaced' if replace else 'kept')
+        if replace:
+            ok = len(e['stores']) == 1 and e['stores'][0][0] == e['t'] and len(e['constructed']) == 1 and e['stores'][0][1] is e['constructed'][0] \
+                and list(e['constructed'][0].names) == want
+            ctx.prove(z3.BoolVal(ok), 'an_empty_or_reset_trace_is_replaced_by_a_fresh_one_over_the_traced_names', 'ensures', note=str([(k, getattr(v, 'names', None)) for k, v in e['stores']]))
+        else:
+            ctx.prove(z3.BoolVal(not e['stores'] and e['arr'].at[e['t']] is e['existing']), 'a_trace_that_already_holds_snapshots_is_kept_(default_reset_False)', 'ensures',
+                      note=str(len(e['stores'])))
+        ap = e['appends']
+        target = e['arr'].at[e['t']]
+        ok = len(ap) == 1 and ap[0][0] is target and ap[0][1] is e['label']
+        ctx.prove(z3.BoolVal(ok), 'snapshot_appended_exactly_once_under_the_given_label_to_the_trace_stored_at_t', 'ensures')
+        if len(ap) == 1:
+            vals = ap[0][2]
+            vv = {'Y': 1.5, 'C': 2.5, 'Long': 3.5, 'G': 4.5}
+            ok = isinstance(vals, np.ndarray) and vals.shape == (len(want), 1) and vals[:, 0].tolist() == [vv[n] for n in want]
+            ctx.prove(z3.BoolVal(ok), 'snapshot_is_the_column_of_the_traced_values_in_order', 'ensures', note=str(getattr(vals, 'shape', None)))
+
+
+CONTRACTS_TRACE = [TraceSnapshot()]
+
+
+# ---------------------------------------------------------------------------------------------------------------
+# C18: AliasMixin.to_dataframe (use_aliases only renames columns)
+# ---------------------------------------------------------------------------------------------------------------
+class AliasExport(FunctionContract):
+    """to_dataframe(use_aliases=..., **options): the table is the parent's table for exactly the options given; without use_aliases it is
+    returned as it is; with use_aliases the only operation applied to it is one rename of columns, each to one of that variable's own
+    aliases - the preferred one where exactly one is declared, none where the variable's own name is preferred - and two preferred names for
+    one variable are rejected with ValueError."""
+    qualname = 'fsic.extensions.common.AliasMixin.to_dataframe'
+    props = ('C18',)
+    required_covers = ('returned', 'ambiguous')
+
+    MAPS = {
+        'off': (False, {'GDP': 'Y', 'cons': 'C'}, []),
+        'no-preferences': (True, {'GDP': 'Y', 'cons': 'C'}, []),
+        'single-alias-preferred': (True, {'GDP': 'Y', 'cons': 'C'}, ['GDP']),
+        'own-name-preferred': (True, {'GDP': 'Y'}, ['Y']),
+        'one-of-many-preferred': (True, {'GDP': 'Y', 'out': 'Y', 'cons': 'C'}, ['out']),
+        'many-none-preferred': (True, {'GDP': 'Y', 'out': 'Y'}, ['C']),
+        'ambiguous': (True, {'GDP': 'Y', 'out': 'Y'}, ['GDP', 'out']),
+        'ambiguous-with-own-name': (True, {'GDP': 'Y', 'out': 'Y'}, ['GDP', 'Y']),
+        'no-aliases': (True, {}, []),
+    }
+
+    def scenarios(self):
+        return list(self.MAPS)
+
+    def setup(self, interp, scenario):
+        ctx = interp.ctx
+        use, aliases, pref = self.MAPS[scenario]
+        e = {'scenario': scenario, 'calls': [], 'renames': []}
+
+        class Table:
+            def rename(self_, *a, **k):
+                e['renames'].append((a, k))
+                t2 = Table()
+                e['renamed'] = t2
+                return t2
+        e['table'] = Table()
+        e['flags'] = {'status': SBool(ctx.fresh('status', BOOL)), 'iterations': SBool(ctx.fresh('iterations', BOOL)), 'include_internal': SBool(ctx.fresh('include_internal', BOOL))}
+        e['inputs'] = {k: v.e for k, v in e['flags'].items()}
+
+        def parent(interp_, o, args, kwargs, node):
+            e['calls'].append((list(args), dict(kwargs)))
+            return e['table']
+        obj = SObj(_Aliased, {'aliases': dict(aliases), 'preferred_names': list(pref)}, label='aliased')
+        interp.registry.set_calls({'fsic.core.interfaces.ModelInterface.to_dataframe': parent, 'fsic.core.containers.VectorContainer.to_dataframe': parent,
+                                   'fsic.core.models.BaseModel.to_dataframe': parent})
+        return Call([], dict(e['flags'], use_aliases=use), self_obj=obj, entry=e)
+
+    def post(self, interp, scenario, call, out):
+        ctx = interp.ctx
+        e = call.entry
+        use, aliases, pref = self.MAPS[scenario]
+        ctx.prove(z3.BoolVal(len(e['calls']) == 1), 'parent_export_called_exactly_once', 'ensures')
+        if len(e['calls']) == 1:
+            a, k = e['calls'][0]
+            ok = not a and set(k) == set(e['flags']) and all(k[f] is e['flags'][f] for f in e['flags'])
+            ctx.prove(z3.BoolVal(ok), 'export_options_forwarded_unchanged_whether_or_not_aliases_are_used', 'pre-at-call', note=str(sorted(k)))
+        groups = {}
+        for al, tgt in aliases.items():
+            groups.setdefault(tgt, []).append(al)
+        ambiguous = use and pref and any(len(set(g + [t]) & set(pref)) > 1 for t, g in groups.items() if len(g) > 1)
+        if out.kind == 'raise':
+            ctx.cover('ambiguous')
+            ctx.prove(z3.BoolVal(bool(ambiguous) and exc_class(out.exc) is ValueError), 'ValueError_only_for_two_preferred_names_of_one_variable', 'raises')
+            return
+        ctx.cover('returned')
+        ctx.prove(z3.BoolVal(not ambiguous), 'ambiguous_preferences_are_rejected', 'raises')
+        if not use:
+            ctx.prove(z3.BoolVal(out.value is e['table'] and not e['renames']), 'without_use_aliases_the_parent_table_is_returned_untouched', 'ensures')
+            return
+        ok = len(e['renames']) == 1 and out.value is e.get('renamed') and not e['renames'][0][0] and set(e['renames'][0][1]) == {'columns'}
+        ctx.prove(z3.BoolVal(ok), 'the_only_operation_on_the_table_is_one_rename_of_columns', 'ensures')
+        if not ok:
+            return
+        mapping = e['renames'][0][1]['columns']
+        want = {}
+        for tgt, g in groups.items():
+            if not pref:
+                want[tgt] = None            # any one of its aliases (the code takes the last one listed)
+            elif len(g) == 1:
+                if tgt not in pref:
+                    want[tgt] = g[0]
+            else:
+                inter = set(g + [tgt]) & set(pref)
+                if len(inter) == 1:
+                    want[tgt] = next(iter(inter))
+        good = isinstance(mapping, dict) and set(mapping) == set(want) and all((mapping[t] in groups[t]) if want[t] is None else mapping[t] == want[t] for t in want)
+        ctx.prove(z3.BoolVal(good), 'each_column_is_renamed_to_one_of_its_own_aliases_(the_preferred_one_where_declared)', 'ensures', note=str(mapping))
+
+
+ALIAS_EXPORT = [AliasExport()]
